@@ -9,6 +9,8 @@ mod rast;
 mod rng;
 mod runner;
 mod setops;
+mod vgrammar;
+mod vstrings;
 
 use runner::*;
 use serde_json::Value;
